@@ -152,7 +152,17 @@ func init() {
 	})
 }
 
+// runC02: most cases run alone; some run as concurrent sessions of the same
+// case shape in one process (package-level state in the code under test).
 func runC02(cs *vrt.Case) {
+	if cs.Idx%6 == 5 {
+		cs.Twins(2, func(sub *vrt.Case, _ *vrt.Rng) { runC02One(sub) })
+		return
+	}
+	runC02One(cs)
+}
+
+func runC02One(cs *vrt.Case) {
 	r := cs.Rng
 	c, what := twoPartyCircuit(cs, r, cs.Idx, vrt.Pick(r, []int{10, 60, 300}))
 	if c == nil {
